@@ -7,6 +7,7 @@ ID = "C13"
 TITLE = "Depth normalisation reorients coordinates and data together, idempotently"
 MC = {"quick": [("MC_Depth", "MC_Depth.cfg", 8)], "thorough": [("MC_Depth", "MC_Depth_thorough.cfg", 16)]}
 TRACE = ("Trace_Depth", "Trace_Depth.cfg")
+THOROUGH_EXTRA_SEEDS = 2
 # the repository\'s own tests, recorded by harness/harvest_plugin.py, judged by the same trace specification
 ALSO = {"quick": [], "thorough": ["harness.props.hv13"]}
 REQUIRED = ["Normalize", "pd-none", "pd-yes", "pd-no", "d2s-none", "d2s-yes", "d2s-no", "via-accessor", "via-function",
